@@ -65,6 +65,40 @@ def tpl_doc(rnd):
     return '<root>%s</root>' % ''.join(secs), nsec
 
 
+def big_doc(rnd):
+    """A document of the template family larger than the parser's read buffer (> 64 KiB): keys, key references
+    and IDREFs reach across many streamed chunks and across several reads of the underlying file."""
+    nsec = rnd.randint(25, 45)
+    per = rnd.randint(35, 60)
+    total = nsec * per
+    fault = rnd.choice(['none', 'none', 'dup_far', 'dup_near', 'dangling_ref', 'dangling_idref', 'bad_value'])
+    dup_at = rnd.randint(total // 2, total - 1)
+    secs = []
+    nid = 0
+    for s in range(nsec):
+        items = []
+        for _ in range(per):
+            nid += 1
+            i = nid
+            if fault == 'dup_far' and nid == dup_at:
+                i = rnd.randint(1, 5)
+            if fault == 'dup_near' and nid == dup_at:
+                i = nid - 1
+            a = ' id="%d" ref="%d"' % (i, rnd.choice([1, total, total + 1 - nid, max(1, nid - 1), rnd.randint(1, total)]))
+            if fault == 'dangling_ref' and nid == dup_at:
+                a = ' id="%d" ref="%d"' % (i, total + 7)
+            if rnd.random() < .2:
+                a += ' to="s%d"' % rnd.choice([0, nsec - 1, rnd.randrange(nsec)])
+            if fault == 'dangling_idref' and nid == dup_at:
+                a += ' to="nosuch"' if ' to=' not in a else ''
+            v = '<v>%d</v>' % rnd.randint(0, 9) * rnd.randint(0, 2)
+            if fault == 'bad_value' and nid == dup_at:
+                v = '<v>x</v>'
+            items.append('<item%s>%s</item>' % (a, v))
+        secs.append('<sec n="s%d">%s</sec>' % (s, ''.join(items)))
+    return '<root>%s</root>' % ''.join(secs), nsec, fault
+
+
 def errs_of(s, src):
     return [(type(e).__name__, compare.norm_reason(e.reason)) for e in s.iter_errors(src)]
 
@@ -200,7 +234,8 @@ def compare_doc(s, xsd, doc, nchunks, st, label, replaying=False):
 
 
 def shards(tier, seed):
-    return [('dg', k, tier, seed) for k in range(10)] + [('tpl', k, tier, seed) for k in range(6)]
+    return [('dg', k, tier, seed) for k in range(10)] + [('tpl', k, tier, seed) for k in range(6)] + \
+           [('big', k, tier, seed) for k in range(4)]
 
 
 def run_shard(desc):
@@ -216,6 +251,20 @@ def run_shard(desc):
             s = schemas['11' if rnd.random() < .3 else '10']
             st_.sample({'generator': 'sections/items', 'doc': doc[:300]}, cap=2)
             return compare_doc(s, TPL_XSD, doc, nsec, st_, 'template')
+    elif kind == 'big':
+        n = 12 if tier == 'thorough' else 2
+        schemas = {v: c(TPL_XSD) for v, c in (('10', xmlschema.XMLSchema10), ('11', xmlschema.XMLSchema11))}
+
+        def body(v, st_):
+            # thousands of draws per document: Hypothesis supplies the seed of a PRNG (its own entropy budget is too small)
+            rnd = random.Random(v)
+            doc, nsec, fault = big_doc(rnd)
+            s = schemas['11' if rnd.random() < .3 else '10']
+            st_.cls('big_document:' + fault)
+            st_.sample({'generator': 'big sections/items', 'bytes': len(doc), 'fault': fault}, cap=2)
+            return compare_doc(s, TPL_XSD, doc, nsec, st_, 'big:' + fault)
+        core.hyp_drive(st, PROPERTY, hst.integers(0, 2 ** 32), body, n, core.derive_seed(seed, 'C06', kind, k), shrink=False)
+        return st
     else:
         n = 300 if tier == "thorough" else 45
 
